@@ -100,6 +100,25 @@ def to_text(e, ctx='top') -> str:
     raise ValueError(k)
 
 
+def base_of(decorators):
+    for d in decorators:
+        if d.startswith('base:'):
+            return d[5:]
+    return None
+
+
+def full_exp(g, name, depth=0):
+    """what a rule stands for: its own expression, behind the full expression of its base rule when it is a based rule
+    (docs/syntax.rst 'Based Rules': extended < base: exp2  ==  extended: exp1 exp2)"""
+    for n, d, e in g['rules']:
+        if n == name:
+            b = base_of(d)
+            if b is None or depth > 8:
+                return e
+            return ('seq', [full_exp(g, b, depth + 1), e])
+    raise KeyError(name)
+
+
 def grammar_text(g) -> str:
     out = []
     for name, value in g.get('directives', {}).items():
@@ -114,8 +133,10 @@ def grammar_text(g) -> str:
         out.append('@@keyword :: ' + ' '.join(kws))
     for name, decorators, e in g['rules']:
         for d in decorators:
-            out.append('@' + d)
-        out.append(f'{name} = {to_text(e, "top")} ;')
+            if not d.startswith('base:'):
+                out.append('@' + d)
+        b = base_of(decorators)
+        out.append(f'{name}{" < " + b if b else ""} = {to_text(e, "top")} ;')
     return '\n'.join(out) + '\n'
 
 
@@ -609,8 +630,9 @@ def rules_to_sx(g, model, names, tabs):
         # @name / @nomemo are what the grammar TEXT says (docs/syntax.rst), not what the implementation made of it
         is_name = bool(r.is_name) if 'name' not in decorators and 'isname' not in decorators else True
         no_memo = bool(r.no_memo) if 'nomemo' not in decorators else True
+        ex = full_exp(g, name) if base_of(decorators) else e      # a based rule: the documented expansion
         rules_sx.append(f'(rule {int(bool(r.is_tokn))} {int(is_name)} {int(no_memo)} '
-                        f'{int(bool(r.is_lrec))} {int(bool(r.memoizable))} {exp_sx(e, names, tabs)})')
+                        f'{int(bool(r.is_lrec))} {int(bool(r.memoizable))} {exp_sx(ex, names, tabs)})')
     return rules_sx
 
 
@@ -618,7 +640,7 @@ def genok_request(g, model) -> str:
     """ask the model which rule bodies lie in the fragment on which GenEquiv.v proves generated parser = interpreter"""
     names = {name: i for i, (name, _, _) in enumerate(g['rules'])}
     tabs = Tables()
-    tabs.rule_exps = {n: x for n, _, x in g['rules']}
+    tabs.rule_exps = {n: full_exp(g, n) for n, _, _ in g['rules']}
     return f'(genok 1 (rules {" ".join(rules_to_sx(g, model, names, tabs))}))'
 
 
@@ -628,7 +650,7 @@ def model_request(g, model, text: str, start: str | None, settings: Settings, se
     model's own layering (the generated parser resolves its configuration itself)."""
     names = {name: i for i, (name, _, _) in enumerate(g['rules'])}
     tabs = Tables()
-    tabs.rule_exps = {n: x for n, _, x in g['rules']}
+    tabs.rule_exps = {n: full_exp(g, n) for n, _, _ in g['rules']}
     eff = effective_config(model, text, settings, cfg=cfg)
     if 'keywords' not in settings.extra and (cfg is None or g.get('keywords')):
         # the reserved words are the ones the grammar text declares (quotes removed), not what the implementation's configuration ended up holding
